@@ -85,6 +85,21 @@ def step (c : CS) (l : Line) : CS :=
   | "hist" => { c with failed := false }
   | "fresh" => branch { c with failed := false } s!"maxbuf={l.nat "maxbuf"}"
   | "cmd" => stepCmd c l
+  | "xcmd" =>
+      -- a command wrapped in TPM_ExecuteTransport that the transport layer accepted: the wrapped response is a TPM 1.2
+      -- response of its own and is judged by the same predicate against the WRAPPED request's tag
+      let c := { c with rep := { c.rep with events := c.rep.events + 1 } }
+      let req := l.bytes "req"
+      let rsp := l.bytes "rsp"
+      let rt := reqTag req
+      let rc := (rspCode rsp).getD 0xFFFFFFFF
+      let ord := ((rd32 (req.drop 6)).map (·.1)).getD 0
+      let psize := ((rd32 (req.drop 2)).map (·.1)).getD 0
+      let c := branch c s!"wrapped ord={ord}/{rcClass rc}/tag={tagClass rt}/sizes-consistent={decide (psize = req.length)}"
+      let c := if wellFormed (l.nat "maxbuf") rt rsp then c else
+        mism c s!"SPEC[malformed-wrapped-response] wrapped request {l.str "req"} (tag {rt}) wrapped response {l.str "rsp"}"
+      let c := if rc = 0 && !legalTag rt then mism c s!"SPEC[success-for-illegal-tag] wrapped ordinal {ord} succeeded with request tag {rt}" else c
+      if l.str "hmac" = "0" then mism c s!"SPEC[transport-response-hmac] the TPM_ExecuteTransport answer carrying {l.str "rsp"} does not verify under the transport session's secret" else c
   | "health" =>
       let c := branch c s!"health/{l.nat "gtr"}/{l.nat "pcrread"}"
       if l.nat "pcrread" = TPM_FAILEDSELFTEST && !c.failed then
